@@ -204,6 +204,7 @@ func EagerOffsets(on bool)                 {}
 func HTTPServeCalls() int                  { return 0 }
 func TimedSleep(on bool)                   {}
 func RandZero(on bool)                     {}
+func DetSched(on bool)                     {}
 func FineGrain(fn string)                  {}
 func WakeSleepers()                        {}
 
